@@ -35,7 +35,11 @@ def _source_hash():
     files = []
     for wrapper, kernels in build.EXTS.values():
         files += [wrapper] + kernels
-    files += glob.glob(os.path.join(REPO, 'dadi', '*.h')) + list(build.PYX_HASHES)
+    # every C / header / pyx file next to the extensions (PDFs_cython.c #includes PDFs.c, kernels include the shared headers)
+    for d in ('dadi', os.path.join('dadi', 'DFE')):
+        for pat in ('*.h', '*.c', '*.pyx'):
+            files += glob.glob(os.path.join(REPO, d, pat))
+    files += list(build.PYX_HASHES)
     for f in sorted(set(files)):
         p = f if os.path.isabs(f) else os.path.join(REPO, f)
         h.update(f.encode())
